@@ -83,6 +83,7 @@ EventStep(ev) ==
                       /\ ObsHandlerDone(g, ev.err)
                       /\ toks' = (g :> SubSeq(Tok(g), 1, Len(Tok(g)) - 1)) @@ toks
   \/ /\ ev.e = "close" /\ (\E g \in Gs : StoreClose(g)) /\ UNCHANGED toks
+  \/ /\ ev.e = "otel" /\ ev.ok /\ UNCHANGED <<vars, toks>>       \* the OpenTelemetry SDK's spans and counters agree with the recorded callbacks
 
 TraceInit ==
   /\ InitWith([obs |-> FALSE, before |-> FALSE, beforeCtx |-> FALSE, after |-> FALSE, afterCtx |-> FALSE,
